@@ -1,21 +1,4 @@
-(* GenEqConst.v — generated constants = the literals the models and the property statements use *)
-From Coq Require Import ZArith Bool Lia.
-From SIDGen Require Import Generated.
-From SID Require Import Base Ids ZoomCore AltKeyCore GenTac.
-Open Scope Z_scope.
-Opaque Generated.CalculateArithmeticShift.
-
-Lemma gen_GeoCrs_eq : Generated.GeoCrs = 4326. Proof. reflexivity. Qed.
-Lemma gen_OrthCrs_eq : Generated.OrthCrs = 3857. Proof. reflexivity. Qed.
-Lemma gen_SpatialIDDelimiter_eq : Generated.SpatialIDDelimiter = cons 47 nil. Proof. reflexivity. Qed.
-(* "/" *)
-Lemma gen_InnerID_eq : (Generated.InnerIDQuadkeyIndex, Generated.InnerIDAltitudekeyIndex) = (0, 1). Proof. reflexivity. Qed.
-(* floating-point constants are exact decimals (m, e) = m * 10^e *)
-Lemma gen_Minima_eq : Generated.Minima = (1, -10). Proof. reflexivity. Qed.
-Lemma gen_line_thresholds_eq :
-  (Generated.LonMinima, Generated.LatMinima, Generated.AltMinima) = ((2, -8), (2, -8), (3, -3)) /\
-  (Generated.HightZoomLonMinima, Generated.HightZoomLatMinima, Generated.HightZoomAltMinima) = ((5, -9), (5, -10), (5, -4)).
-Proof. split; reflexivity. Qed.
-Lemma gen_line_switches_eq : (Generated.LineSwitch_hZoom, Generated.LineSwitch_vZoom) = (31, 34). Proof. reflexivity. Qed.
-Lemma gen_SetLat_eq : Generated.SetLat_limit = (850511287798, -10) /\ Generated.SetLat_scale = 10 ^ 10. Proof. split; reflexivity. Qed.
-Transparent Generated.CalculateArithmeticShift.
+(* GenEqConst.v — generated constants = the literals the models and the property statements use. Umbrella kept for backward compatibility: the
+   lemmas live in one file per group (GenEqConstCrs, GenEqConstDelim, GenEqConstQuadkey, GenEqConstMinima, GenEqConstLine, GenEqConstSetLat), so that a
+   constant the translator cannot read, or an edited one, breaks only the properties that cite that group. Import the narrow file, not this one. *)
+From SID Require Export GenEqConstCrs GenEqConstDelim GenEqConstQuadkey GenEqConstMinima GenEqConstLine GenEqConstSetLat.
